@@ -130,17 +130,12 @@ func ApplyMetricsQuery(mQuery *structs.MetricsQuery, timeRange *dtu.MetricsTimeR
 	}
 
 	if mQuery.SelectAllSeries {
-		filteredTags := make([]*structs.TagsFilter, 0, len(allTagKeys))
+		// The labels of a "without" clause stay in the search: a series that has no other
+		// label is only found through them. They are removed from the series id when the
+		// results are aggregated (see GetSeriesIdWithoutFields).
 		for _, v := range mQuery.TagsFilters {
 			delete(allTagKeys, v.TagKey)
-			if v.IgnoreTag && !v.NotInitialGroup {
-				continue
-			}
-
-			filteredTags = append(filteredTags, v)
 		}
-
-		mQuery.TagsFilters = filteredTags
 
 		for tkey, present := range allTagKeys {
 			if present {
